@@ -61,7 +61,16 @@ func checkAllDocs(c *explore.Ctx, scope string, idx int64, seg segment.Segment, 
 			return false
 		}
 		if earlyStops {
+			// every early-stop index, ending with a stop after the FIRST value: the visit of the next
+			// document then follows a visit that left undelivered values behind
+			stops := make([]int, 0, len(w)+1)
 			for j := 0; j < len(w); j++ {
+				stops = append(stops, j)
+			}
+			if len(w) >= 2 {
+				stops = append(stops, 0)
+			}
+			for _, j := range stops {
 				got, calls, err := visitStored(seg, d, j)
 				if err != nil || calls != j+1 || !kvEqual(got, w[:j+1]) {
 					c.Violate(scope, idx, "C06/"+form+"/early-stop", fmt.Sprintf("doc %d stop after %d: %d callbacks %q err %v", d, j, calls, got, err), cas)
